@@ -47,6 +47,7 @@ import (
 	"github.com/celestiaorg/go-header/store"
 	"github.com/celestiaorg/go-header/sync"
 
+	"verifharness/syncfx"
 	"verifharness/vhdr"
 )
 
@@ -437,5 +438,33 @@ func TestShimRaceWitness(t *testing.T) {
 		t.Errorf("WITNESS (F24): the shim's head went back: Syncer.Head() and State().Height are %d, below the Store head %d, with nothing pending", lh.Height(), sh)
 	} else if sh != 20 {
 		t.Errorf("store head %d, want 20", sh)
+	}
+}
+
+// Finding F25, repaired in /repo f604e5b: syncStore.Append used to store its new head BEFORE the underlying write; if
+// that write then failed (store.Append fails when its write queue is full and the caller's context ends, or the
+// store stops), the shim stayed ahead of the Store and the next adjacent headers were written above a hole.
+// The run (the corpus case failwrite_loop of the C03 check): the loop's write of 18, 19 fails; gossip 21 restarts the
+// sync.  Before f604e5b the loop continued from the shim's head 19: the Store ended with 15..17, 20, 21, ...
+//   go test -tags verif -run '^TestFailedWriteWitness$' -v ./c03/
+func TestFailedWriteWitness(t *testing.T) {
+	for _, kind := range []string{"failwrite_loop", "failwrite_gossip"} {
+		run, ok, err := syncfx.RunStraddle(kind)
+		if err != nil {
+			t.Fatal(err)
+		}
+		if !ok {
+			t.Skipf("%s: the schedule could not be realised on this tree", kind)
+		}
+		t.Logf("%s: store serves %v; datastore heights %v", kind, run.Probe, run.Heights)
+		gap := false
+		for i := 1; i < len(run.Heights); i++ {
+			if run.Heights[i] != run.Heights[i-1]+1 {
+				gap = true
+			}
+		}
+		if gap {
+			t.Errorf("WITNESS (F25) %s: the datastore holds %v: a hole below a stored header after a failed write", kind, run.Heights)
+		}
 	}
 }
